@@ -153,6 +153,14 @@ def r3(ctx):
     ctx.need(len(loops) == 2, f"{f.site()}: the (sample, treatment) double loop was not found")
     outer = max(loops, key=lambda lp: len(list(ast.walk(lp))))
     inner_l = min(loops, key=lambda lp: len(list(ast.walk(lp))))
+    # recognised wrong: a running value `result[k] = (result[k] + x) / 2`: for three or more replicates this is not their mean
+    for n in st:
+        tk = U(n.targets[0]).replace(" ", "")
+        if isinstance(n.value, ast.BinOp) and isinstance(n.value.op, ast.Div) and isinstance(n.value.right, ast.Constant) \
+                and any(U(x).replace(" ", "") == tk for x in ast.walk(n.value.left) if isinstance(x, ast.Subscript)):
+            ctx.bad("R3", f"{f.site()}::effect-is-mean", f"the single-agent effect is updated as `{U(n.value)}`: a pairwise running average weights later replicates more - "
+                    f"with three or more repeated measurements it is not their mean")
+            return
     ctx.need(any(x is inner_l for x in ast.walk(outer)), f"{f.site()}: the effect table is not filled by a (sample, treatment) double loop; this grouping algorithm is not one the rule knows")
     sv, tv = U(outer.target), U(inner_l.target)
     if N.key(inline(outer.iter, env)) != N.key(parse_expr(f"np.unique({sids})")):
